@@ -7346,7 +7346,12 @@ class Parser:
                 try:
                     func = func_builder(args)
                 except TypeError:
-                    func = func_builder(args, dialect=self.dialect)
+                    try:
+                        func = func_builder(args, dialect=self.dialect)
+                    except TypeError:
+                        # The builder itself failed on these arguments
+                        self.raise_error(f"Invalid arguments for function {this}")
+                        func = exp.Anonymous(this=this, expressions=args)
 
                 func = self.validate_expression(func, args)
                 if self.dialect.PRESERVE_ORIGINAL_NAMES:
